@@ -13,6 +13,7 @@ From Eupsv Require Import Base.Base Model.Graph Proofs.GraphLib Proofs.GraphWalk
      Proofs.GraphTarjanLib Proofs.GraphTarjanFull Proofs.GraphTotal Proofs.GraphBuild.
 From Eupsv Require Import Model.DepWalk Proofs.DepWalkConst Proofs.DepWalkSim Proofs.DepWalkComplete Proofs.DepWalkEdges
      Proofs.DepWalkPins Proofs.DepWalkMain Proofs.DepWalkCheck Generated.Config.
+From Eupsv Require Import Model.BuildOrder Proofs.BuildOrderLib Proofs.BuildOrder.
 Open Scope string_scope.
 
 (* ------------------------------------------------------------------ completeness of the listing *)
@@ -935,3 +936,213 @@ Example table_flavor_refuted_pinned :
   = Ok [ ((lit "g", lit "1"), [mkDline (lit "h") None None [] false false false]) ] /\
   dtables_of_text (mkTconfig [] []) false (lit "Linux64") [generic_product] = Ok [ ((lit "g", lit "1"), []) ].
 Proof. split; vm_compute; reflexivity. Qed.
+
+
+(* ------------------------------------------------------------------ the build order of eups distrib *)
+
+(* Model/BuildOrder.v: [create_dependencies fuel w n v] is Distrib.createDependencies(n, v) - the topological
+   listing sorted by descending depth (stable), every listed product looked up again, the product itself
+   last - as the ordered list of manifest entries (product, optional); [manifest_nodes m] are the products.
+   Hypotheses, exactly: the fuel exceeds the number of declared products; the resolved edges agree with the
+   declarations (wf_world, established by the correspondence check for every world); for the order, no
+   cycle in the closure (or, edge by edge, the two products do not need each other). *)
+
+(* the entries are exactly the product itself and the DECLARED products of its listing, each once: an
+   undeclared (unresolved) dependency has nothing to install and is left out when optional *)
+Theorem manifest_entries_complete fuel w n v m :
+  length w < fuel -> wf_world w ->
+  create_dependencies fuel w n v = Ok m ->
+  NoDup (manifest_nodes m) /\
+  forall q, In q (manifest_nodes m) <->
+            q = pnode (n, v) \/ (q <> pnode (n, v) /\ reach_plus w (pnode (n, v)) q /\ nreal q = true).
+Proof. exact (manifest_entries fuel w n v m). Qed.
+Print Assumptions manifest_entries_complete.
+
+(* the product itself is the last entry, required *)
+Theorem manifest_ends_with_the_product fuel w n v m :
+  create_dependencies fuel w n v = Ok m -> exists mm, m = mm ++ [(pnode (n, v), false)].
+Proof. intros C. destruct (create_dependencies_inv _ _ _ _ _ C) as [_ [l [mm [_ [_ E]]]]]. exists mm. exact E. Qed.
+Print Assumptions manifest_ends_with_the_product.
+
+(* every other entry carries the optional flag of the listing (required beats optional) *)
+Theorem manifest_entry_flags fuel w n v m q o :
+  length w < fuel -> wf_world w ->
+  create_dependencies fuel w n v = Ok m -> In (q, o) m ->
+  (q = pnode (n, v) /\ o = false) \/
+  exists l x, dependent_products fuel w (pnode (n, v)) true = Ok l /\ In x l /\ enode x = q /\ eoptional x = o.
+Proof. exact (manifest_flags fuel w n v m q o). Qed.
+Print Assumptions manifest_entry_flags.
+
+(* createDependencies of a declared product answers exactly when every unresolved dependency of the listing is
+   optional; a required one raises ProductNotFound - never a manifest that silently lacks a required product *)
+Theorem manifest_answers_exactly fuel w n v :
+  length w < fuel -> wf_world w -> declared w n v = true ->
+  exists l, dependent_products fuel w (pnode (n, v)) true = Ok l /\
+    ((exists m, create_dependencies fuel w n v = Ok m) <->
+     (forall x, In x l -> nreal (enode x) = false -> eoptional x = true)) /\
+    ((exists x, In x l /\ nreal (enode x) = false /\ eoptional x = false) ->
+     create_dependencies fuel w n v = Err NotFound).
+Proof. exact (manifest_answers fuel w n v). Qed.
+Print Assumptions manifest_answers_exactly.
+
+(* in the manifest every product comes after all the products of the manifest that its table asks for, unless
+   the two need each other (no order exists on a cycle): whatever the closure holds - two versions of one name,
+   unresolved stubs, cycles elsewhere *)
+Theorem manifest_order_safe_outside_cycles fuel w n v m m1 x m2 y :
+  length w < fuel -> wf_world w ->
+  create_dependencies fuel w n v = Ok m ->
+  m = m1 ++ x :: m2 -> step w (fst x) y -> In y (manifest_nodes m) -> ~ reach_plus w y (fst x) ->
+  In y (manifest_nodes m1).
+Proof.
+  intros Hf Hwf C -> S Iy Nc.
+  apply (manifest_order_core fuel w n v _ (manifest_nodes m1) (fst x) (manifest_nodes m2) y Hf Hwf C); auto.
+  rewrite manifest_nodes_app. reflexivity.
+Qed.
+Print Assumptions manifest_order_safe_outside_cycles.
+
+(* on a closure without cycles: every product after ALL of its listed dependencies *)
+Theorem manifest_order_safe fuel w n v m m1 x m2 y :
+  length w < fuel -> wf_world w -> acyclic_from w (pnode (n, v)) ->
+  create_dependencies fuel w n v = Ok m ->
+  m = m1 ++ x :: m2 -> step w (fst x) y -> In y (manifest_nodes m) -> In y (manifest_nodes m1).
+Proof.
+  intros Hf Hwf Ha C E S Iy.
+  apply (manifest_order_safe_outside_cycles fuel w n v m m1 x m2 y Hf Hwf C E S Iy).
+  apply (acyclic_no_back w (pnode (n, v))); [exact Ha | | exact S].
+  apply (manifest_node_in_closure fuel w n v m (fst x) Hf Hwf C).
+  rewrite E, manifest_nodes_app. apply in_or_app. right. left. reflexivity.
+Qed.
+Print Assumptions manifest_order_safe.
+
+(* the install loop: [install_loop w manifest installed todo] installs the products of todo one after the other
+   and fails ([Err Refused]) on meeting a product one of whose dependencies is to be installed (is in the manifest)
+   and is not in the installed set yet.  Over the manifest, in manifest order, starting from nothing, it never
+   fails, and ends with exactly the manifest installed *)
+Theorem install_in_manifest_order_succeeds fuel w n v m :
+  length w < fuel -> wf_world w -> acyclic_from w (pnode (n, v)) ->
+  create_dependencies fuel w n v = Ok m ->
+  exists out, install_manifest w m = Ok out /\ forall q, In q out <-> In q (manifest_nodes m).
+Proof.
+  intros Hf Hwf Ha C. unfold install_manifest.
+  apply (install_loop_ok w (manifest_nodes m)) with (pre := []); [|reflexivity|tauto].
+  intros M1 p M2 y EM S Iy.
+  apply (manifest_order_core fuel w n v m M1 p M2 y Hf Hwf C EM S Iy).
+  apply (acyclic_no_back w (pnode (n, v))); [exact Ha | | exact S].
+  apply (manifest_node_in_closure fuel w n v m p Hf Hwf C). rewrite EM. apply in_or_app. right. left. reflexivity.
+Qed.
+Print Assumptions install_in_manifest_order_succeeds.
+
+(* the hypotheses are inhabited: the diamond with a shared sub-tree, an optional edge and an unresolved optional
+   dependency (left out of the manifest); d before b and c, e before d, a last *)
+Example manifest_of_the_diamond :
+  create_dependencies 6 w_diamond (lit "a") (lit "1")
+  = Ok [ (nd "e" "1", false); (nd "d" "1", false); (nd "b" "1", false); (nd "c" "2", true); (nd "a" "1", false) ]
+  /\ install_manifest w_diamond
+       [ (nd "e" "1", false); (nd "d" "1", false); (nd "b" "1", false); (nd "c" "2", true); (nd "a" "1", false) ]
+     = Ok [nd "e" "1"; nd "d" "1"; nd "b" "1"; nd "c" "2"; nd "a" "1"]
+  /\ install_manifest w_diamond [ (nd "b" "1", false); (nd "d" "1", false) ] = Err Refused.
+Proof. vm_compute. auto. Qed.
+
+(* two versions of one name in the closure (D16 on the pinned tree): both are entries, each after its own
+   dependencies *)
+Example manifest_two_versions :
+  create_dependencies 7 w_d16 (lit "p5") (lit "1")
+  = Ok [ (nd "p2" "3", false); (nd "p3" "1", false); (nd "p3" "3", false); (nd "p4" "2", false); (nd "p5" "1", false) ].
+Proof. vm_compute. reflexivity. Qed.
+
+(* a required dependency that is not declared: ProductNotFound *)
+Example manifest_required_stub_refused :
+  create_dependencies 3 [ pr "a" "1" [ed "ghost" (Some "1") None false] ] (lit "a") (lit "1") = Err NotFound.
+Proof. vm_compute. reflexivity. Qed.
+
+(* ------------------------------------------------------------------ eups list --dependencies *)
+
+(* [cli_lines fuel w top topological check f] are the products eups list --dependencies [--topological]
+   [--checkCycles] [--depth f] prints, in order (app.printProducts).  Every line is the product itself or a
+   product of the listing that passes the depth test ... *)
+Theorem cli_listing_sound fuel w top topological f L :
+  cli_lines fuel w top topological false f = Ok L ->
+  exists l, dependent_products fuel w top topological = Ok l /\
+    forall q, In q L -> (q = top /\ depth_ok f 0 = true) \/
+                        exists x, In x l /\ enode x = q /\ depth_ok f (edepth x) = true.
+Proof.
+  intros C. destruct (cli_lines_inv _ _ _ _ _ _ C) as [l [D ->]]. exists l. split; [exact D|].
+  intros q I. apply in_app_iff in I as [I | I].
+  - destruct (depth_ok f 0); [|destruct I]. destruct I as [<- | []]. left. auto.
+  - right. apply in_map_iff in I as [x [E I]]. unfold cli_entries in I. apply first_of_name_sub in I.
+    apply filter_In in I as [I K]. exists x. auto.
+Qed.
+Print Assumptions cli_listing_sound.
+
+(* ... without --depth every product NAME of the listing is printed (the command keys its table of printed
+   products by the name: app.py 157-158) ... *)
+Theorem cli_listing_names_complete fuel w top topological L :
+  cli_lines fuel w top topological false DAll = Ok L ->
+  exists l, dependent_products fuel w top topological = Ok l /\ In top L /\
+    forall q, In q (map enode l) -> exists q', In q' L /\ nname q' = nname q.
+Proof.
+  intros C. destruct (cli_lines_inv _ _ _ _ _ _ C) as [l [D ->]]. exists l. split; [exact D|]. cbn [depth_ok].
+  split; [left; reflexivity|]. intros q I. apply in_map_iff in I as [x [<- I]].
+  unfold cli_entries. rewrite filter_all.
+  destruct (first_of_name_names l [] x I) as [[] | [x' [I' E]]].
+  exists (enode x'). split; [right; apply in_map, I' | exact E].
+Qed.
+Print Assumptions cli_listing_names_complete.
+
+(* ... and when the listing holds one product per name the lines are EXACTLY the product followed by the
+   listing, in the order of the listing, restricted to the depths that pass the test *)
+Theorem cli_listing_exact fuel w top topological f l :
+  dependent_products fuel w top topological = Ok l ->
+  NoDup (map (fun x => nname (enode x)) l) ->
+  cli_lines fuel w top topological false f
+  = Ok ((if depth_ok f 0 then [top] else []) ++ map enode (filter (fun x => depth_ok f (edepth x)) l)).
+Proof.
+  intros D Hn. unfold cli_lines. rewrite D. cbn [andb]. rewrite (cli_entries_exact f l Hn). reflexivity.
+Qed.
+Print Assumptions cli_listing_exact.
+
+(* so eups list --dependencies --topological prints, after the product, exactly the products reachable through
+   the table files, each once, every product after all the listed products that depend on it (outside cycles) *)
+Corollary cli_topological_listing_complete_and_ordered fuel w top l :
+  length w < fuel -> wf_world w ->
+  dependent_products fuel w top true = Ok l ->
+  NoDup (map (fun x => nname (enode x)) l) ->
+  cli_lines fuel w top true false DAll = Ok (top :: map enode l) /\
+  (forall q, In q (map enode l) <-> q <> top /\ reach_plus w top q) /\
+  NoDup (map enode l) /\
+  (forall l1 y l2 x, l = l1 ++ y :: l2 -> In x l2 -> ~ reach_plus w (enode y) (enode x) -> ~ step w (enode x) (enode y)).
+Proof.
+  intros Hf Hwf D Hn. split.
+  - rewrite (cli_listing_exact fuel w top true DAll l D Hn). cbn [depth_ok app]. rewrite filter_all. reflexivity.
+  - destruct (walk_complete_topological w top fuel l Hf D) as [H1 H2]. split; [exact H1|]. split; [exact H2|].
+    intros l1 y l2 x El Ix Nc. exact (listed_after_its_users w top fuel l l1 y l2 x Hf Hwf D El Ix Nc).
+Qed.
+Print Assumptions cli_topological_listing_complete_and_ordered.
+
+(* --checkCycles: a cycle among the products of the closure is refused, nothing is printed *)
+Theorem cli_cycle_refused fuel w top topological f g :
+  length w < fuel -> wf_world w -> topo_graph fuel w top = Ok g -> proper_cycle w top ->
+  cli_lines fuel w top topological true f = Err Refused.
+Proof.
+  intros Hf Hwf Hg Hc. unfold cli_lines. rewrite Hg. rewrite (cycle_reported_exactly w top fuel g Hf Hwf Hg Hc). reflexivity.
+Qed.
+Print Assumptions cli_cycle_refused.
+
+(* The full statement - the printed lines are the whole listing - is FALSE of the command when the closure holds
+   two products of one name: of p3 3 and p3 1 only the first is printed (the API lists both:
+   build_order_two_versions_inhabited).  The API and the manifest are complete there; the command line is not. *)
+Example cli_one_line_per_name_refuted :
+  cli_lines 7 w_d16 (nd "p5" "1") true false DAll
+  = Ok [nd "p5" "1"; nd "p3" "3"; nd "p4" "2"; nd "p2" "3"] /\
+  reach_plus w_d16 (nd "p5" "1") (nd "p3" "1").
+Proof.
+  split; [vm_compute; reflexivity|].
+  eapply rp_more; [eexists _, (ed "p4" (Some "2") (Some "2") false); split; [reflexivity|]; split; [right; left; reflexivity | reflexivity]|].
+  apply rp_one. eexists _, (ed "p3" (Some "1") (Some "1") false). split; [reflexivity|]. split; [left; reflexivity | reflexivity].
+Qed.
+
+(* --depth on the diamond: depth <= 2 keeps the product and its direct dependencies of the topological listing *)
+Example cli_depth_on_the_diamond :
+  cli_lines 6 w_diamond (nd "a" "1") true false (DLe 2) = Ok [nd "a" "1"; nd "b" "1"; nd "c" "2"] /\
+  cli_lines 6 w_diamond (nd "a" "1") true false (DGt 2) = Ok [nd "d" "1"; nd "e" "1"; stub "ghost" None].
+Proof. vm_compute. auto. Qed.
